@@ -18,27 +18,39 @@ Definition bad_sched : list nat :=
    1; 1; 1; 1; 1; 1; 1; 1; 1; 1; 1]%nat. (* T1: whole binding incl. the fall-back under the other mutex: copies 0 *)
 
 Lemma two_mutex_protocol_refuted_proof :
-  run_ctx false bad_infos [0; 1] [[0; 0]; [1; 2]] bad_sched = (true, false, true).
+  run_ctx false false bad_infos [0; 1] [[0; 0]; [1; 2]] bad_sched = (true, false, true).
 Proof. vm_compute. reflexivity. Qed.
 
 Lemma same_mutex_protocol_same_schedule :
-  run_ctx true bad_infos [0; 1] [[0; 0]; [1; 2]] bad_sched = (true, true, true).
+  run_ctx true true bad_infos [0; 1] [[0; 0]; [1; 2]] bad_sched = (true, true, true).
 Proof. vm_compute. reflexivity. Qed.
 
 (* bounded exhaustive exploration (a finite theorem about these configurations, NOT the general claim):
    every interleaving prefix of length 14 over 2 threads (16384 schedules, completed round-robin) of the repaired
    protocol satisfies the property, for both list orders *)
-Definition explore (same : bool) (infos : list ctxinfo) (pre : list Z) (progs : list (list Z)) (n len : nat) : bool :=
-  forallb (fun s => let '(q, r, ns) := run_ctx same infos pre progs s in q && r && ns) (all_scheds n len).
+Definition explore (same raise : bool) (infos : list ctxinfo) (pre : list Z) (progs : list (list Z)) (n len : nat) : bool :=
+  forallb (fun s => let '(q, r, ns) := run_ctx same raise infos pre progs s in q && r && ns) (all_scheds n len).
 
 Lemma same_mutex_all_schedules_small :
-  explore true bad_infos [0; 1] [[0; 0]; [1; 2]] 2 14 = true /\
-  explore true sc_infos [0; 1] [[0; 0]; [1; 2]] 2 14 = true.
+  explore true true bad_infos [0; 1] [[0; 0]; [1; 2]] 2 14 = true /\
+  explore true true sc_infos [0; 1] [[0; 0]; [1; 2]] 2 14 = true.
 Proof. split; vm_compute; reflexivity. Qed.
 
 (* a three-level tree with two binders and two cancellers at different levels, list orders mixed *)
 Definition tree4 : list ctxinfo := [mkci (-1) 0; mkci 0 1; mkci 1 0; mkci 1 2].
 Lemma same_mutex_all_schedules_tree4 :
-  explore true tree4 [0; 1] [[0; 0]; [1; 2]; [1; 3]] 3 9 = true.
+  explore true true tree4 [0; 1] [[0; 0]; [1; 2]; [1; 3]] 3 9 = true.
 Proof. vm_compute. reflexivity. Qed.
 
+
+(* second defect: a context bound beneath a parent that has no parent (isolated / root context) registers itself and then copies the parent's flag
+   with a load followed by a store; a cancellation of the parent that propagates between the two is overwritten *)
+Definition root_infos : list ctxinfo := [mkci (-1) 0; mkci 0 1].
+Definition root_bad_sched : list nat :=
+  [0; 0; 0; 0;                                   (* T0 = binder of ctx1 beneath the root ctx0: fetch op, may_have_children, register, LOAD the parent's flag (0) *)
+   1; 1; 1; 1; 1; 1; 1; 1; 1; 1; 1; 1; 1; 1;     (* T1 = cancel(ctx0): exchange, propagation marks ctx1, unlock *)
+   0; 0; 0]%nat.                                 (* T0: STORE 0 *)
+Lemma root_copy_refuted_proof : run_ctx true false root_infos [0] [[1; 1]; [0; 0]] root_bad_sched = (true, false, true).
+Proof. vm_compute. reflexivity. Qed.
+Lemma root_copy_raise_only_same_schedule : run_ctx true true root_infos [0] [[1; 1]; [0; 0]] root_bad_sched = (true, true, true).
+Proof. vm_compute. reflexivity. Qed.
